@@ -21,8 +21,8 @@ import time
 from dataclasses import dataclass, field
 from pathlib import Path
 
-ROOT = Path("/verif")
-PY = str(ROOT / ".venv/bin/python")
+ROOT = Path(__file__).resolve().parents[1]
+PY = "/verif/.venv/bin/python"
 KF_FILE = ROOT / "known_findings.json"
 
 
